@@ -296,7 +296,7 @@ impl CaseIo for Pair {
 }
 
 thread_local! {
-    static ARENA: std::cell::RefCell<Vec<u8>> = std::cell::RefCell::new(Vec::with_capacity((1 << 18) + 16));
+    static ARENAS: [std::cell::RefCell<Vec<u8>>; 2] = [std::cell::RefCell::new(Vec::with_capacity((1 << 18) + 16)), std::cell::RefCell::new(Vec::with_capacity((1 << 13) + 16))];
     static ARENA_CALLS: std::cell::Cell<u64> = std::cell::Cell::new(0);
 }
 
@@ -306,12 +306,21 @@ thread_local! {
 /// calls, so that inputs are also seen at odd and otherwise unaligned addresses (`&buf[1..]`), which whole `Vec`s
 /// never are. Inputs larger than the buffer, and nested calls, get a fresh allocation.
 pub fn in_arena<R>(x: &[u8], f: impl FnOnce(&Vec<u8>) -> R) -> R {
-    let mut buf = ARENA.with(|a| std::mem::take(&mut *a.borrow_mut()));
+    in_arena_slot(0, x, f)
+}
+
+/// The same with this thread's second, smaller buffer (8 KiB): usable while the first one is held.
+pub fn in_arena2<R>(x: &[u8], f: impl FnOnce(&Vec<u8>) -> R) -> R {
+    in_arena_slot(1, x, f)
+}
+
+fn in_arena_slot<R>(slot: usize, x: &[u8], f: impl FnOnce(&Vec<u8>) -> R) -> R {
+    let mut buf = ARENAS.with(|a| std::mem::take(&mut *a[slot].borrow_mut()));
     if buf.capacity() < x.len() + 8 {
         let fresh = x.to_vec();
         let r = f(&fresh);
         if buf.capacity() > 0 {
-            ARENA.with(|a| *a.borrow_mut() = buf);
+            ARENAS.with(|a| *a[slot].borrow_mut() = buf);
         }
         return r;
     }
@@ -320,14 +329,14 @@ pub fn in_arena<R>(x: &[u8], f: impl FnOnce(&Vec<u8>) -> R) -> R {
         c.set(v + 1);
         v
     });
-    let k = ((calls / 64) % 8) as usize;
+    let k = ((calls / 256) % 8) as usize;
     buf.clear();
     buf.resize(k, 0);
     buf.extend_from_slice(x);
     // A read-only `Vec` view of buf[k..]: never dropped, grown or written through (the judges take `&Vec<u8>`).
     let view = std::mem::ManuallyDrop::new(unsafe { Vec::from_raw_parts(buf.as_mut_ptr().add(k), x.len(), x.len()) });
     let r = f(&view);
-    ARENA.with(|a| *a.borrow_mut() = buf);
+    ARENAS.with(|a| *a[slot].borrow_mut() = buf);
     r
 }
 
